@@ -5,7 +5,7 @@ namespace RimeModel.C12
 
 set_option linter.unusedSectionVars false
 
-variable {K : Type} [DecidableEq K] {cat : Rid → Time → Content}
+variable {K : Type} [DecidableEq K] {cat : Rid → Stamp → Content}
 
 theorem upd_same {α β : Type} [DecidableEq α] (f : α → Option β) (k : α) (v : β) (h : f k = some v) :
     upd f k v = f := by
@@ -23,7 +23,7 @@ theorem upd_ne {α β : Type} [DecidableEq α] (f : α → Option β) (k x : α)
 
 /-! ### consistency is preserved by consistent assignments -/
 
-def Assign.OK (E : Env K) (cat : Rid → Time → Content) : Assign K → Prop
+def Assign.OK (E : Env K) (cat : Rid → Stamp → Content) : Assign K → Prop
   | .cfg id a => CfgOK E cat id a
   | .table _ t => TableOK E t
   | .reverse _ r => ReverseOK E r
@@ -74,14 +74,14 @@ theorem applyAssigns_append (A : Arts K) (l m : List (Assign K)) :
     applyAssigns A (l ++ m) = applyAssigns (applyAssigns A l) m := by
   simp [applyAssigns, List.foldl_append]
 
-theorem consistent_empty (E : Env K) (cat : Rid → Time → Content) : Consistent E cat (Arts.empty : Arts K) :=
+theorem consistent_empty (E : Env K) (cat : Rid → Stamp → Content) : Consistent E cat (Arts.empty : Arts K) :=
   ⟨fun _ _ h => by simp [Arts.empty] at h, fun _ _ h => by simp [Arts.empty] at h,
    fun _ _ h => by simp [Arts.empty] at h, fun _ _ h => by simp [Arts.empty] at h⟩
 
 /-! ### `ConfigFileUpdate` -/
 
-theorem timeOf_eq_zero {S : Src} (hp : PosTimes S) {r : Rid} (h : timeOf S r = 0) : S r = none := by
-  unfold timeOf at h
+theorem stampOf_eq_zero {S : Src} (hp : PosTimes S) {r : Rid} (h : stampOf S r = 0) : S r = none := by
+  unfold stampOf at h
   cases hs : S r with
   | none => rfl
   | some p =>
@@ -90,14 +90,13 @@ theorem timeOf_eq_zero {S : Src} (hp : PosTimes S) {r : Rid} (h : timeOf S r = 0
 
 /-- a compiled config that passes the staleness test is what compiling the current sources gives -/
 theorem coherent_of_stamped {S₀ S : Src} (h0 : Stamped cat S₀) (h1 : Stamped cat S) : Coherent S₀ S := by
-  intro r c c' t a b
-  rw [h0 r c t a, h1 r c' t b]
+  intro r c c' t t' a b e
+  rw [h0 r c t a, h1 r c' t' b, e]
 
 theorem cfg_reuse {E : Env K} (hC : CompilerOK E) {S : Src} (hS : PosTimes S) (hSt : Stamped cat S)
     {id : CfgId} {a : CfgArt}
     (ha : CfgOK E cat id a) (hn : configNeedsUpdate S (some a) = false) : E.compile id S = some a := by
   obtain ⟨S₀, hc, hst0, hpos⟩ := ha
-  have hcoh := coherent_of_stamped hst0 hSt
   apply hC.local' id S₀ S a hc
   intro p hp
   have hf := hC.faithful id S₀ a hc p hp
@@ -110,21 +109,22 @@ theorem cfg_reuse {E : Env K} (hC : CompilerOK E) {S : Src} (hS : PosTimes S) (h
     rw [hs] at hst
     have h0 : p.2 = 0 := by simpa using hst
     rw [h0] at hf
-    rw [timeOf_eq_zero hpos hf.symm]
+    simp [seen, stampOf_eq_zero hpos hf.symm, hs]
   | some ct =>
     rw [hs] at hst
-    have ht : p.2 = ct.2 := by simpa using hst
-    have hne : ct.2 ≠ 0 := hS p.1 ct.1 ct.2 (by rw [hs])
-    unfold timeOf at hf
+    have ht : p.2 = recorded ct.2 := by simpa using hst
+    have hne : recorded ct.2 ≠ 0 := hS p.1 ct.1 ct.2 (by rw [hs])
+    unfold stampOf at hf
     cases hs0 : S₀ p.1 with
     | none => rw [hs0] at hf; simp at hf; exact absurd (ht.symm.trans hf) hne
     | some ct0 =>
       rw [hs0] at hf
       simp at hf
-      have ht0 : ct0.2 = ct.2 := hf.symm.trans ht
-      have hc' : ct0.1 = ct.1 :=
-        hcoh p.1 ct0.1 ct.1 ct.2 (by rw [hs0, ← ht0]) (by rw [hs])
-      cases ct0; cases ct; simp_all
+      have ht0 : recorded ct0.2 = recorded ct.2 := hf.symm.trans ht
+      -- same recorded time ⇒ same content (`Stamped`); the compiler sees the file only through `seen`
+      have hc' : ct0.1 = ct.1 := by
+        rw [hst0 p.1 ct0.1 ct0.2 (by rw [hs0]), hSt p.1 ct.1 ct.2 (by rw [hs]), ht0]
+      simp [seen, hs, hs0, hc', ht0]
 
 /-- a freshly compiled config passes the staleness test -/
 theorem fresh_not_stale {E : Env K} (hC : CompilerOK E) {S : Src} {id : CfgId} {a : CfgArt}
@@ -133,7 +133,7 @@ theorem fresh_not_stale {E : Env K} (hC : CompilerOK E) {S : Src} {id : CfgId} {
   intro p hp
   have hf := hC.faithful id S a hc p hp
   unfold stampStale
-  unfold timeOf at hf
+  unfold stampOf at hf
   cases hs : S p.1 with
   | none => rw [hs] at hf; simp [hf]
   | some ct => rw [hs] at hf; simp [hf]
@@ -509,7 +509,7 @@ theorem schemaAssigns_ok {E : Env K} {S : Src} (hS : PosTimes S) (hSt : Stamped 
       · subst h; exact packAssign_ok hfs ((hd d hdict).2 q hq)
 
 /-- the simulation between the real loop state and the plan computed from the sources alone -/
-structure Sim (E : Env K) (cat : Rid → Time → Content) (S : Src) (A : Arts K) (st : Loop K) (bs : Plan K) : Prop where
+structure Sim (E : Env K) (cat : Rid → Stamp → Content) (S : Src) (A : Arts K) (st : Loop K) (bs : Plan K) : Prop where
   arts : st.arts = applyAssigns A bs.assigns
   built : st.built = bs.built
   failures : st.failures = bs.failures
@@ -621,7 +621,7 @@ theorem listFold_sim {E : Env K} (hC : CompilerOK E) (hK : CkOK E) {S : Src} (hS
 theorem workspaceUpdate_spec {E : Env K} (hC : CompilerOK E) (hK : CkOK E) {S : Src} (hS : SourcesOK E S)
     (hSt : Stamped cat S)
     {A : Arts K} (hA : Consistent E cat A) (now : Time) :
-    (workspaceUpdate E S now A).1 = { applyAssigns A (plan E S) with lastBuild := now } ∧
+    (workspaceUpdate E S now A).1 = { applyAssigns A (plan E S) with lastBuild := castInt now } ∧
     (workspaceUpdate E S now A).2.1 = planOk E S ∧
     Consistent E cat (workspaceUpdate E S now A).1 := by
   obtain ⟨c0, l, hc0, hl, hlist, hreach⟩ := hS.default
